@@ -130,7 +130,7 @@ func (e *Engine) uninterpCalls(x SpecExpr) map[string]bool {
 				continue
 			}
 			seen[c] = true
-			if sf, ok := e.DB.SpecFuncs[c]; ok {
+			for _, sf := range e.DB.SpecByName[c] {
 				if sf.Body == nil {
 					res[c] = true
 				} else {
